@@ -385,6 +385,9 @@ def fill_query_params(query, params):
     def params_replace(node, **kwargs):
         if isinstance(node, ast.Parameter):
             value = params.pop(0)
+            if value is None:
+                # NULL has its own node class (the planner tests for it), as the parser builds for the literal
+                return ast.NullConstant(alias=node.alias, parentheses=node.parentheses)
             return ast.Constant(value, alias=node.alias, parentheses=node.parentheses)
 
     # put parameters into query
